@@ -282,8 +282,13 @@ fn run_pipeline<const N: usize>(cfg: &Cfg, sched: &'static Sched, header_out: &m
     let provider = Arc::new(LoggingProvider { inner: RingBuffer::<u64, N>::new(), sched });
     let b0 = RustDisruptorBuilder::new::<_, u64>(provider);
     macro_rules! finish {
-        ($b1:expr, $mk:ident, $kind:ident) => {{
-            let b2 = $b1.$mk();
+        ($b1:expr, $seqty:ident, $wty:ty, $kind:ident) => {{
+            // `with_single_producer()` / `with_multi_producer()` are sugar for exactly this; building the sequencer
+            // here lets the harness learn the address of the producer cursor
+            let sequencer = $seqty::<$wty>::new(N, <$wty as WaitStrategy>::new());
+            let pc_addr = probe_addr(sched, &sequencer.get_cursor());
+            header_out.push_str(&format!(" pc={pc_addr}"));
+            let b2 = $b1.with_sequencer(sequencer);
             // stage wiring through the public DSL; cursors probed through `handle_events_with`
             let mut cursor_addrs: Vec<(usize, usize, usize)> = Vec::new();
             let mut tids: Vec<String> = Vec::new();
@@ -322,10 +327,10 @@ fn run_pipeline<const N: usize>(cfg: &Cfg, sched: &'static Sched, header_out: &m
     }
     // the facade types make `Producer` for the multi sequencer Sync; the single one is used on one thread only
     match (cfg.block, cfg.multi) {
-        (false, false) => finish!(b0.with_spin_wait(), with_single_producer, single),
-        (true, false) => finish!(b0.with_blocking_wait(), with_single_producer, single),
-        (false, true) => finish!(b0.with_spin_wait(), with_multi_producer, multi),
-        (true, true) => finish!(b0.with_blocking_wait(), with_multi_producer, multi),
+        (false, false) => finish!(b0.with_spin_wait(), SingleProducerSequencer, SpinLoopWaitStrategy, single),
+        (true, false) => finish!(b0.with_blocking_wait(), SingleProducerSequencer, BlockingWaitStrategy, single),
+        (false, true) => finish!(b0.with_spin_wait(), MultiProducerSequencer, SpinLoopWaitStrategy, multi),
+        (true, true) => finish!(b0.with_blocking_wait(), MultiProducerSequencer, BlockingWaitStrategy, multi),
     }
 }
 
